@@ -114,7 +114,7 @@ def run_one(m, repo, slot, pids=None):
         shutil.rmtree(scratch, ignore_errors=True)
 
 
-def run(pid=None, repo='/repo', jobs=4, quiet=False, ids=None):
+def run(pid=None, repo='/repo', jobs=8, quiet=False, ids=None):
     ms = load_mutants(pid)
     if ids:
         ms = [m for m in ms if any(i in m['id'] for i in ids)]
@@ -157,8 +157,10 @@ def run(pid=None, repo='/repo', jobs=4, quiet=False, ids=None):
     os.makedirs(os.path.dirname(out), exist_ok=True)
     with open(out, 'w') as f:
         json.dump(dict(property=pid, summary=summary, results=results, wall_s=round(time.time() - t0, 1)), f, indent=1)
-    # a missed mutant is a weakness of the checker, not a violation of the property on /repo: reported, exit 0
-    return 0
+    # a missed mutant is a weakness of the checker, not a violation of the property on /repo: reported, never an alarm
+    return dict(summary=summary, wall_s=round(time.time() - t0, 1),
+                results=[dict(id=r['id'], status=r['status'], expect=r.get('expect', []), fired=sorted({f['ob'] for f in r.get('fired', [])}),
+                              detail=r.get('detail', '')[:200]) for r in results])
 
 
 def implemented():
@@ -214,4 +216,5 @@ if __name__ == '__main__':
     if a.neutral:
         run_seeds(a.jobs, a.ids, prefix='neutral/', tag='neutrals')
         sys.exit(0)
-    sys.exit(run(a.property, ids=a.ids, jobs=a.jobs))
+    run(a.property, ids=a.ids, jobs=a.jobs)
+    sys.exit(0)
